@@ -12,7 +12,7 @@ from pbt.core import Result, silence, exc_sig
 ID = "C22"
 LEVEL = "exploration"
 EXAMPLES = {"quick": 480, "thorough": 12000}
-SHRINK_S = {"quick": 6, "thorough": 60}
+SHRINK_S = {"quick": 20, "thorough": 90}
 DEADLINE_S = {"quick": 240, "thorough": 3000}
 TECHNIQUE = "property-based testing: generated operation histories + invariant (referential integrity) oracle"
 RULE = ("case = network recipe (netgen, 1-3 voltage levels, trafo3w favoured) + extras (switches of the kinds b/l/t/t3, "
@@ -269,7 +269,8 @@ def classify(kind, info):
     return kind
 
 
-DROP_FAMILIES = ("drop_buses", "drop_branches", "drop_elements", "drop_out_of_service", "fuse_buses", "replace_branch")
+DROP_FAMILIES = ("drop_buses", "drop_elements_at_buses", "drop_branches", "drop_elements", "drop_out_of_service",
+                 "fuse_buses", "replace_branch")
 REPLACE_FAMILIES = ("replace_gen_like", "replace_pq_elmtype", "replace_ward_like")
 
 
@@ -287,7 +288,8 @@ def signature(fam, kind):
         if kind in ("res_index:res_switch", "group.member:switch"):
             return "drop/" + kind
         if kind == "controller.element_index":
-            return ("drop_buses/" if fam == "drop_buses" else "drop_elements/") + kind
+            # drop_elements_at_buses keeps the controllers of the bus elements it drops (get_equivalent relies on it)
+            return (fam if fam in ("drop_buses", "drop_elements_at_buses") else "drop_elements") + "/" + kind
         if kind.startswith("cost.element"):
             return "drop_elements/cost.element"
         if kind == "measurement.element:bus_element":
